@@ -153,23 +153,23 @@ fn budget(prop: &str, tier: &str, seed: u64, scale: f64) -> Budget {
     let random_runs;
     match prop {
         "C03" => {
-            random_runs = r(240_000, 80_000, 18_000_000, 9_000_000);
+            random_runs = r(400_000, 150_000, 18_000_000, 9_000_000);
             if checked {
                 sweeps.push(sweeps::c03_single_codeword(seed, if quick { 6 } else { 255 }));
+                sweeps.push(sweeps::c03_single_data_pixel(seed));
                 if !quick {
                     sweeps.push(sweeps::c03_sq10_weight2(seed));
-                    sweeps.push(sweeps::c03_single_data_pixel(seed));
                 }
             }
         }
         "C09" => {
-            random_runs = r(300_000, 100_000, 24_000_000, 12_000_000);
+            random_runs = r(800_000, 300_000, 24_000_000, 12_000_000);
             if checked && !quick {
                 sweeps.push(sweeps::c09_sq10_weight3(seed));
             }
         }
         "C05" => {
-            random_runs = r(250_000, 150_000, 18_000_000, 18_000_000);
+            random_runs = r(500_000, 300_000, 18_000_000, 18_000_000);
             sweeps.push(sweeps::c05_short_streams(!quick, !quick && checked));
             sweeps.push(sweeps::c05_base256_lengths(seed, if quick { 600 } else { 1600 }));
             if checked {
@@ -177,7 +177,7 @@ fn budget(prop: &str, tier: &str, seed: u64, scale: f64) -> Budget {
             }
         }
         "C08" => {
-            random_runs = r(120_000, 40_000, 12_000_000, 3_000_000);
+            random_runs = r(250_000, 80_000, 12_000_000, 3_000_000);
             if checked {
                 sweeps.push(sweeps::c08_single_pixel(seed, if quick { 1 } else { 16 }));
                 sweeps.push(sweeps::small_geometry("C08", if quick { 330 } else { 1300 }, if quick { 40 } else { 150 }));
